@@ -29,6 +29,9 @@ type C07Op struct {
 	Root   int    `json:"root,omitempty"`  // for call/rcall: index into the model's method list (mod len)
 	Lookup bool   `json:"lookup,omitempty"`
 	Model  int    `json:"model,omitempty"` // for call/rcall: 0 = the project's own model, k>0 = synthetic model k-1
+	// Noise: for the directory passes, what else lies in the scanned directory: 1 = a .gitignore
+	// ignoring *.iml / *.log plus such files sorting before, between and after the sources
+	Noise int `json:"noise,omitempty"`
 }
 
 type C07Proc struct {
@@ -85,6 +88,7 @@ func c07Options(t *tape.Tape, thorough bool) gen.Options {
 	o.BigBodies = t.Bool(1, 4)
 	o.TwinNames = t.Bool(1, 3)
 	o.SamePkgConflict = t.Bool(1, 2)
+	o.ServiceMethod = t.Bool(1, 2)
 	o.Nested = t.Bool(1, 3) // differential oracle: shapes beyond the conventional subset cost nothing
 	return o
 }
@@ -124,6 +128,9 @@ func genHistory(t *tape.Tape, nFiles int, thorough bool, passes []string) []C07P
 				}
 				if len(op.Files) == 0 {
 					op.Files = []int{perm[0]}
+				}
+				if t.Bool(1, 4) {
+					op.Noise = 1
 				}
 			}
 			proc.Ops = append(proc.Ops, op)
@@ -204,6 +211,19 @@ func (r *c07run) place(dir string, pos int, fi int) (string, error) {
 	}
 	r.paths[p] = "<" + f.ID + ">"
 	return p, nil
+}
+
+// addNoise drops a .gitignore and ignored regular files around the sources of a scanned directory.
+func (r *c07run) addNoise(dir string, n int) {
+	os.WriteFile(filepath.Join(dir, ".gitignore"), []byte("*.iml\n*.log\nbuild/\n"), 0644)
+	os.WriteFile(filepath.Join(dir, "00_aaa.iml"), []byte("<module/>\n"), 0644)
+	os.WriteFile(filepath.Join(dir, "zz_last.log"), []byte("log\n"), 0644)
+	if n > 1 {
+		os.WriteFile(filepath.Join(dir, "00_m.log"), []byte("log\n"), 0644)
+		os.MkdirAll(filepath.Join(dir, "00_build"), 0755)
+		os.WriteFile(filepath.Join(dir, "00_build", "x.log"), []byte("log\n"), 0644)
+	}
+	r.out.Faults["dir-noise"]++
 }
 
 func (r *c07run) newDir() string {
@@ -641,6 +661,9 @@ func (C07) Run(ctx *sim.RunCtx, data json.RawMessage) (*sim.Outcome, error) {
 					}
 				}
 				d.dir = dir
+				if op.Noise > 0 {
+					r.addNoise(dir, len(files))
+				}
 				if op.Pass == "bs" {
 					proc.Ops = append(proc.Ops, sim.Op{Op: "bs", Args: map[string]interface{}{"dir": dir}})
 				} else {
